@@ -18,6 +18,7 @@ class FakeSocket:
         self.sent = bytearray()      # everything the host sent
         self.send_calls = []
         self.recv_sizes = []         # sizes actually returned (for the evidence)
+        self.timeout = None          # settimeout() value: recv raises socket.timeout after that long without data
         net.sockets.append(self)
 
     def connect(self, addr):
@@ -41,10 +42,13 @@ class FakeSocket:
     def recv(self, n):
         sim = kernel.SIM
         sim.yield_point('recv')
+        deadline = None if self.timeout is None else sim.now + self.timeout
         while not self.rx:
             if self.closed:
                 return b''
-            sim.block(self.waiters, None, 'socket-recv')
+            woken = sim.block(self.waiters, deadline, 'socket-recv')
+            if not self.rx and not woken and deadline is not None and sim.now >= deadline:
+                raise TimeoutError('timed out')
         k = self.net.next_chunk(min(n, len(self.rx)))
         out = bytes(self.rx[:k])
         del self.rx[:k]
@@ -64,7 +68,7 @@ class FakeSocket:
         kernel.SIM.wake_all(self.waiters)
 
     def settimeout(self, t):
-        pass
+        self.timeout = t
 
 
 class FakeNet:
